@@ -83,7 +83,7 @@ def run(eng: Engine, ck: Check):
         if f is tcb:
             # the timer's own callback: must tolerate a request that is already gone and report the removal only if it removed something
             tolerant = (kind == 'pop' and len(x.args) == 2) or protected_by_try_catching(eng, f, x, 'KeyError') is not None or \
-                any(pol and (cmp_atom(e) or ('',))[0] == 'in' and 'self.requests' in unparse(cmp_atom(e)[2]) for e, pol, _ in eng.guards_at(f, x))
+                any(pol and (cmp_atom(e) or ('',))[0] in ('in', 'is', 'eq') and 'self.requests' in unparse(e) for e, pol, _ in eng.guards_at(f, x))
             ck.ob('R-C18-TIMER', f, x, 'the timeout callback tolerates a request that was already removed (no KeyError in the timer task)', tolerant,
                   f'`{unparse(x)}` raises KeyError when the user removed the request before the deadline', construct='timeout tolerant')
             ems = [y for y in calls_on(f.node, 'emit') if 'SearchRequestRemovedEvent' in unparse(y)]
@@ -92,7 +92,7 @@ def run(eng: Engine, ck: Check):
             if ok:
                 # emit only on paths where something was removed: guarded by membership / not reached from the KeyError handler / pop result test
                 en = c.nodes_for(ems[0])[0]
-                guarded = any(pol and ((cmp_atom(e) or ('',))[0] == 'in' and 'self.requests' in unparse(e)) for e, pol, _ in eng.guards_at(f, ems[0])) or \
+                guarded = any(pol and ((cmp_atom(e) or ('',))[0] in ('in', 'is', 'eq') and 'self.requests' in unparse(e)) for e, pol, _ in eng.guards_at(f, ems[0])) or \
                     any((not pol) and (cmp_atom(e) or ('',))[0] == 'is' and is_none_const(cmp_atom(e)[2]) for e, pol, _ in eng.guards_at(f, ems[0])) or \
                     any(pol and isinstance(e, ast.Name) for e, pol, _ in eng.guards_at(f, ems[0]))
                 hnodes = [n for n in c.nodes if n.kind == 'handler' and 'KeyError' in handler_type_names(n.ast)]
